@@ -48,6 +48,12 @@ pub struct SpendSpec {
     /// attempt never counts as truthful)
     #[serde(default)]
     pub backrefs: bool,
+    /// non-zero: the puzzle reveal and the solution are opaque CLVM values built from atoms
+    /// that occur nowhere else (1: 4-byte atoms, 2: 33-byte atoms, 3: the puzzle is a pair of
+    /// two such atoms), so the spend shares nothing with the rest of the generator. Such a
+    /// spend does not run, so it never has a truthful cost; the builders do not run it either.
+    #[serde(default)]
+    pub opaque: u8,
 }
 
 #[derive(Serialize, Deserialize, Clone, Debug, PartialEq)]
@@ -184,7 +190,29 @@ fn build_bundle(b: &BundleSpec) -> SpendBundle {
     let mut spends = vec![];
     for (i, sp) in b.spends.iter().enumerate() {
         let parent = sha(&[b"parent", &sp.parent_seed.to_le_bytes()]);
-        let (mut puzzle, mut solution, ph): (Vec<u8>, Vec<u8>, [u8; 32]) = if sp.quoted {
+        let (mut puzzle, mut solution, ph): (Vec<u8>, Vec<u8>, [u8; 32]) = if sp.opaque != 0 {
+            let seed = sp.parent_seed.to_le_bytes();
+            let len = if sp.opaque == 2 { 33 } else { 4 };
+            let atom = |tag: &[u8]| -> Vec<u8> {
+                let mut x = sha(&[b"opaque", tag, &seed]).to_vec();
+                x.extend_from_slice(&sha(&[b"opaque2", tag, &seed]));
+                x[0] |= 0x40; // never a small integer, never nil
+                x.truncate(len);
+                x
+            };
+            let mut a = Allocator::new();
+            let p1 = a.new_atom(&atom(b"p1")).unwrap();
+            let pz = if sp.opaque == 3 {
+                let p2 = a.new_atom(&atom(b"p2")).unwrap();
+                a.new_pair(p1, p2).unwrap()
+            } else {
+                p1
+            };
+            let so = a.new_atom(&atom(b"s")).unwrap();
+            let p = node_to_bytes(&a, pz).unwrap();
+            let ph = clvm_utils::tree_hash_from_bytes(&p).map(|h| h.to_bytes()).unwrap_or([0u8; 32]);
+            (p, node_to_bytes(&a, so).unwrap(), ph)
+        } else if sp.quoted {
             // (q . conditions): ff 01 <conditions>
             let mut p = vec![0xff, 0x01];
             p.extend_from_slice(&solution_bytes(sp));
@@ -427,6 +455,9 @@ impl C10 {
                 }
                 Op::Add { bundles, cost } => {
                     let built: Vec<SpendBundle> = bundles.iter().map(build_bundle).collect();
+                    if bundles.iter().any(|b| b.spends.iter().any(|sp| sp.opaque != 0)) {
+                        c.inc("probe.attempt_with_opaque_spends");
+                    }
                     let decodable = built.iter().all(|b| b.coin_spends.iter().all(|cs| expected_tuple(cs).is_some()));
                     let corrupted = bundles.iter().any(|b| b.corrupt != Corrupt::None);
                     // truthful cost, as the mempool would have computed it
@@ -742,6 +773,12 @@ impl Engine for C10 {
         let nops = if deep { rng.range(14, 40) as usize } else { nops };
         let fault_pct = *rng.pick(&[0u64, 10, 25, 50]);
         let mut parent_counter = rng.below(1 << 40);
+        // swarm: some histories consist only of spends that share nothing with each other or
+        // with the generator's wrapper (no `1`, no `q`, no common amounts or vocabulary), in
+        // bundles of at least opaque_min spends: whatever the size estimate charges per spend,
+        // per bundle or per shared atom then shows undiluted
+        let opaque_only = rng.chance(1, 12);
+        let opaque_min = if rng.chance(1, 2) { 4 } else { 1 };
         let mut ops = vec![];
         while ops.len() < nops {
             if rng.chance(1, 6) {
@@ -764,9 +801,21 @@ impl Engine for C10 {
                     51..=58 => 3,
                     _ => rng.range(4, 6) as usize,
                 };
+                let ns = if opaque_only { rng.range(opaque_min, 8) as usize } else { ns };
                 let mut spends = vec![];
                 for _ in 0..ns {
                     parent_counter += 1;
+                    if opaque_only || rng.chance(1, 25) {
+                        spends.push(SpendSpec {
+                            parent_seed: parent_counter,
+                            amount: 1000 + parent_counter % 60_000,
+                            conds: vec![],
+                            quoted: false,
+                            backrefs: false,
+                            opaque: 1 + rng.below(3) as u8,
+                        });
+                        continue;
+                    }
                     let nc = match rng.below(8) {
                         0 => 0,
                         1..=4 => 1,
@@ -806,7 +855,7 @@ impl Engine for C10 {
                             CondSpec::Remark { .. } | CondSpec::RemarkTree { .. } => true,
                         });
                     }
-                    spends.push(SpendSpec { parent_seed: parent_counter, amount, conds, quoted: rng.chance(1, 4), backrefs: rng.chance(1, 10) });
+                    spends.push(SpendSpec { parent_seed: parent_counter, amount, conds, quoted: rng.chance(1, 4), backrefs: rng.chance(1, 10), opaque: 0 });
                 }
                 let corrupt = if !spends.is_empty() && rng.below(100) < fault_pct / 2 {
                     let spend = rng.usize_below(spends.len()) as u8;
